@@ -21,6 +21,7 @@ use crate::parsers::markdown::DEFAULT_MARKDOWN_LANGUAGES;
 use crate::parsers::markdown::MarkdownIterator;
 use crate::parsers::markdown::MarkdownToken;
 use crate::parsers::markdown::NumberedLines;
+use crate::parsers::markdown::document_lines;
 
 /// Update [`crate::testcase::TestCase`]s in an existing Markdown document
 pub struct MarkdownUpdateGenerator(Vec<String>);
@@ -48,7 +49,7 @@ impl UpdateGenerator for MarkdownUpdateGenerator {
         }
 
         // initialize markdown iterator
-        let lines = original_document.lines();
+        let lines = document_lines(original_document);
         let languages: &[&str] = &self.0.iter().map(|s| s as &str).collect::<Vec<_>>();
         let iterator = MarkdownIterator::new(languages, lines);
 
